@@ -203,7 +203,13 @@ func hostileManagerWith(c *vf.Ctx, onHang func(frames []hostileFrame, where stri
 		c.AddTLC(res)
 	}
 	run(1, "", map[string]string{"Kinds": "{0, 1, 2, 3, 4, 5, 6, 7, 9, 63}", "Sids": "{0, 1, 2}", "Mids": "{0, 1}", "Payloads": `{"empty", "rpc", "garbage", "err7"}`})
-	run(2, "", map[string]string{"Kinds": "{1, 2, 4, 7, 9}", "Sids": "{1, 2}", "Mids": "{1}", "Payloads": `{"x"}`})
+	// Mids 1,2: a second packet on the same stream (invoke on an existing stream, unknown kind after the invoke)
+	if c.Quick() {
+		run(2, "", map[string]string{"Kinds": "{1, 2, 9}", "Sids": "{1, 2}", "Mids": "{1, 2}", "Payloads": `{"x"}`})
+		run(2, "", map[string]string{"Kinds": "{1, 4, 7}", "Sids": "{1, 2}", "Mids": "{1}", "Payloads": `{"x"}`})
+	} else {
+		run(2, "", map[string]string{"Kinds": "{1, 2, 4, 7, 9}", "Sids": "{1, 2}", "Mids": "{1, 2}", "Payloads": `{"x"}`})
+	}
 	nsim := 30
 	if !c.Quick() {
 		nsim = 600
@@ -344,6 +350,17 @@ func subHostile(args []string) int {
 			cp.PeerEOF()
 			select {
 			case <-res:
+				// whatever the peer did, the connection is either usable or says why not: a further call returns (an error
+				// or a reply), it does not crash
+				res2 := make(chan error, 1)
+				go func() {
+					var out dir.Msg
+					res2 <- conn.Invoke(context.Background(), "/svc/M2", &dir.GateEnc{}, &dir.Msg{Data: []byte("q")}, &out)
+				}()
+				select {
+				case <-res2:
+				case <-time.After(200 * time.Millisecond):
+				}
 			case <-time.After(200 * time.Millisecond):
 				// a peer may legitimately leave the call waiting (e.g. it never answers); what matters is that Close works
 			}
